@@ -36,6 +36,6 @@ theorem skel_SessionStore_Clear_ok : skel_SessionStore_Clear = ([
 
 theorem clear_maxAgeArgs_ok : clear_maxAgeArgs = (["req, c.Name, \"\", time.Hour * -1"] : List String) := rfl
 
-theorem clearRegex_args_ok : clearRegex_args = (["fmt.Sprintf(\"^%s(_\\\\d+)?$\", regexp.QuoteMeta(s.Cookie.Name))"] : List String) := rfl
+theorem clearRegex_args_ok : clearRegex_args = ([] : List String) := rfl
 
 end O2P.Expect.C11
